@@ -44,6 +44,9 @@ func (blockchain *Blockchain) AddBlock(timestamp int64, transactions []*ledger.T
 	var previousHash [32]byte
 	if !blockchain.isEmpty() {
 		previousBlock := blockchain.blocks[len(blockchain.blocks)-1]
+		if timestamp <= previousBlock.Timestamp() {
+			return fmt.Errorf("the block timestamp %d is not after the last block timestamp %d", timestamp, previousBlock.Timestamp())
+		}
 		var err error
 		previousHash, err = previousBlock.Hash()
 		if err != nil {
